@@ -80,6 +80,12 @@ func (h *ConsistentHash) AddWithReplicas(node any, replicas int) {
 		hash := h.hashFunc([]byte(nodeRepr + strconv.Itoa(i)))
 		h.keys = append(h.keys, hash)
 		h.ring[hash] = append(h.ring[hash], node)
+		if nodes := h.ring[hash]; len(nodes) > 1 {
+			// keep colliding nodes in a canonical order, Get picks by position
+			sort.Slice(nodes, func(i, j int) bool {
+				return repr(nodes[i]) < repr(nodes[j])
+			})
+		}
 	}
 
 	sort.Slice(h.keys, func(i, j int) bool {
@@ -139,20 +145,24 @@ func (h *ConsistentHash) Remove(node any) {
 		index := sort.Search(len(h.keys), func(i int) bool {
 			return h.keys[i] >= hash
 		})
-		if index < len(h.keys) && h.keys[index] == hash {
+		// only drop the virtual node if it belongs to this node, another node's label
+		// may hash to the same value (e.g. "a"+"10" and "a1"+"0")
+		if h.removeRingNode(hash, nodeRepr) && index < len(h.keys) && h.keys[index] == hash {
 			h.keys = append(h.keys[:index], h.keys[index+1:]...)
 		}
-		h.removeRingNode(hash, nodeRepr)
 	}
 
 	h.removeNode(nodeRepr)
 }
 
-func (h *ConsistentHash) removeRingNode(hash uint64, nodeRepr string) {
+func (h *ConsistentHash) removeRingNode(hash uint64, nodeRepr string) (removed bool) {
 	if nodes, ok := h.ring[hash]; ok {
 		newNodes := nodes[:0]
 		for _, x := range nodes {
-			if repr(x) != nodeRepr {
+			// one entry per virtual node, drop only the one being removed
+			if !removed && repr(x) == nodeRepr {
+				removed = true
+			} else {
 				newNodes = append(newNodes, x)
 			}
 		}
@@ -162,6 +172,8 @@ func (h *ConsistentHash) removeRingNode(hash uint64, nodeRepr string) {
 			delete(h.ring, hash)
 		}
 	}
+
+	return
 }
 
 func (h *ConsistentHash) addNode(nodeRepr string) {
